@@ -138,5 +138,5 @@ pub fn gen_prio2_inst(rng: &mut Rng, small: bool) -> Inst {
             _ => 1 + rng.below(16) as u32,
         }
     };
-    Inst { class: "prio2".into(), n: 2, proofs: 1, max: N(1), len: len.max(1), chunk: 1, weight: 1, mt: false, named: true }
+    Inst { class: "prio2".into(), n: 2, proofs: 1, max: N(1), len: len.max(1), chunk: 1, weight: 1, mt: false, named: true, xof: String::new() }
 }
